@@ -166,7 +166,10 @@ Record storage := mkSt {
   s_dump_req : bool;               (* a TryDumpBlobIndexes / deferred dump request is outstanding *)
   s_aged : bool;                   (* the active blob is older than the debounce interval *)
   s_open : bool;
-  s_f2 : bool                      (* ghost: a record was appended to a blob whose index was on disk (finding F2) *)
+  s_f2 : bool;                     (* ghost: a record was appended to a blob whose index was on disk (finding F2) *)
+  s_bad : list N;                  (* between sessions: ids of blob files of the work directory that are unreadable (cut inside
+                                      a record or inside the blob header); they sit in the directory until the next start *)
+  s_quar : list N                  (* ids of the blob files in the corrupted directory, oldest first *)
 }.
 
 Definition closed_blobs (s : storage) : list blob :=
@@ -174,27 +177,33 @@ Definition closed_blobs (s : storage) : list blob :=
 
 Definition upd_active (s : storage) (a : option blob) : storage :=
   {| s_active := a; s_closed := s_closed s; s_next := s_next s; s_corrupted := s_corrupted s; s_alive := s_alive s;
-     s_dump_req := s_dump_req s; s_aged := s_aged s; s_open := s_open s; s_f2 := s_f2 s |}.
+     s_dump_req := s_dump_req s; s_aged := s_aged s; s_open := s_open s; s_f2 := s_f2 s;
+     s_bad := s_bad s; s_quar := s_quar s |}.
 Definition upd_closed (s : storage) (c : list (option blob)) : storage :=
   {| s_active := s_active s; s_closed := c; s_next := s_next s; s_corrupted := s_corrupted s; s_alive := s_alive s;
-     s_dump_req := s_dump_req s; s_aged := s_aged s; s_open := s_open s; s_f2 := s_f2 s |}.
+     s_dump_req := s_dump_req s; s_aged := s_aged s; s_open := s_open s; s_f2 := s_f2 s;
+     s_bad := s_bad s; s_quar := s_quar s |}.
 Definition upd_dump_req (s : storage) (d : bool) : storage :=
   {| s_active := s_active s; s_closed := s_closed s; s_next := s_next s; s_corrupted := s_corrupted s; s_alive := s_alive s;
-     s_dump_req := d; s_aged := s_aged s; s_open := s_open s; s_f2 := s_f2 s |}.
+     s_dump_req := d; s_aged := s_aged s; s_open := s_open s; s_f2 := s_f2 s;
+     s_bad := s_bad s; s_quar := s_quar s |}.
 Definition upd_alive (s : storage) (a : bool) : storage :=
   {| s_active := s_active s; s_closed := s_closed s; s_next := s_next s; s_corrupted := s_corrupted s; s_alive := a;
-     s_dump_req := s_dump_req s; s_aged := s_aged s; s_open := s_open s; s_f2 := s_f2 s |}.
+     s_dump_req := s_dump_req s; s_aged := s_aged s; s_open := s_open s; s_f2 := s_f2 s;
+     s_bad := s_bad s; s_quar := s_quar s |}.
 Definition upd_aged (s : storage) (a : bool) : storage :=
   {| s_active := s_active s; s_closed := s_closed s; s_next := s_next s; s_corrupted := s_corrupted s; s_alive := s_alive s;
-     s_dump_req := s_dump_req s; s_aged := a; s_open := s_open s; s_f2 := s_f2 s |}.
+     s_dump_req := s_dump_req s; s_aged := a; s_open := s_open s; s_f2 := s_f2 s;
+     s_bad := s_bad s; s_quar := s_quar s |}.
 Definition upd_f2 (s : storage) (f : bool) : storage :=
   {| s_active := s_active s; s_closed := s_closed s; s_next := s_next s; s_corrupted := s_corrupted s; s_alive := s_alive s;
-     s_dump_req := s_dump_req s; s_aged := s_aged s; s_open := s_open s; s_f2 := s_f2 s || f |}.
+     s_dump_req := s_dump_req s; s_aged := s_aged s; s_open := s_open s; s_f2 := s_f2 s || f;
+     s_bad := s_bad s; s_quar := s_quar s |}.
 
 (* before the first `open`: an empty directory *)
 Definition init_storage : storage :=
   {| s_active := None; s_closed := []; s_next := 0; s_corrupted := 0; s_alive := false;
-     s_dump_req := false; s_aged := false; s_open := false; s_f2 := false |}.
+     s_dump_req := false; s_aged := false; s_open := false; s_f2 := false; s_bad := []; s_quar := [] |}.
 
 (* Inner::ensure_active_blob_exists *)
 Definition ensure_active (s : storage) : storage :=
@@ -203,7 +212,7 @@ Definition ensure_active (s : storage) : storage :=
   | None =>
     {| s_active := Some (new_blob (s_next s)); s_closed := s_closed s; s_next := s_next s + 1;
        s_corrupted := s_corrupted s; s_alive := s_alive s; s_dump_req := s_dump_req s; s_aged := false;
-       s_open := s_open s; s_f2 := s_f2 s |}
+       s_open := s_open s; s_f2 := s_f2 s; s_bad := s_bad s; s_quar := s_quar s |}
   end.
 
 (* Storage::get_latest_entry: active blob first, then closed blobs newest to oldest, merged by `latest` *)
@@ -248,7 +257,10 @@ Inductive op :=
 | OClose                         (* Storage::close *)
 | ODrop                          (* session ends without close(): files stay as they are *)
 | OOpen (lazy : bool)            (* a new Storage on the same directory: init / init_lazy *)
-| ORmIndex (id : N).             (* between sessions: remove an index file *)
+| ORmIndex (id : N)              (* between sessions: remove an index file *)
+| OCut (id : N) (keep : option nat).
+    (* between sessions: crash damage of a blob file. Some j: the file ends behind its j-th record;
+       None: it ends inside a record or inside the blob header (unreadable) *)
 
 Inductive out :=
 | RUnit | RErr (e : err) | RNum (n : N)
@@ -306,7 +318,8 @@ Definition replace_active (s : storage) : storage :=
   let nb := new_blob (s_next s) in
   let s1 := match s_active s with Some b => push_closed s b | None => s end in
   {| s_active := Some nb; s_closed := s_closed s1; s_next := s_next s + 1; s_corrupted := s_corrupted s;
-     s_alive := s_alive s; s_dump_req := s_dump_req s; s_aged := false; s_open := s_open s; s_f2 := s_f2 s |}.
+     s_alive := s_alive s; s_dump_req := s_dump_req s; s_aged := false; s_open := s_open s; s_f2 := s_f2 s;
+     s_bad := s_bad s; s_quar := s_quar s |}.
 
 Definition active_count (s : storage) : option N :=
   match s_active s with Some b => Some (imap_count (b_idx b)) | None => None end.
@@ -419,34 +432,89 @@ Definition do_close (s : storage) : list blob :=
   (* close(): the active blob is dumped; closed blobs stay as they are; vacated slots disappear with the process *)
   closed_blobs s ++ match s_active s with Some b => [blob_dump b] | None => [] end.
 
-Definition do_open (files : list blob) (corrupted : N) (lazy : bool) (f2 : bool) : storage :=
+(* greatest element of a list of ids *)
+Definition max_ids (l : list N) : option N :=
+  fold_left (fun a i => match a with Some m => Some (N.max m i) | None => Some i end) l None.
+
+Definition next_above (l : list N) : N := match max_ids l with Some m => m + 1 | None => 0 end.
+
+(* the blob file cannot be read back: Blob::from_file fails with a bincode error (C06) *)
+Definition is_bad (bad : list N) (b : blob) : bool := existsb (N.eqb (b_id b)) bad.
+
+(* Storage::init / init_lazy (init_ext). `bad`: the blob files of the work directory that cannot be read back; they are
+   moved (renamed) to the corrupted directory. `quar`: the ids of the files already there. A blob id that a file of
+   either directory ever had is never handed out again. *)
+Definition do_open (files : list blob) (bad quar : list N) (corrupted : N) (lazy : bool) (f2 : bool) : storage :=
   match files with
-  | [] => (* init_new *)
-    {| s_active := Some (new_blob 0); s_closed := []; s_next := 1; s_corrupted := corrupted; s_alive := true;
-       s_dump_req := false; s_aged := false; s_open := true; s_f2 := f2 |}
+  | [] => (* init_new: no blob file at all in the work directory *)
+    let id0 := next_above quar in
+    {| s_active := Some (new_blob id0); s_closed := []; s_next := id0 + 1; s_corrupted := corrupted; s_alive := true;
+       s_dump_req := false; s_aged := false; s_open := true; s_f2 := f2; s_bad := []; s_quar := quar |}
   | _ =>
-    let blobs := sort_by_id (map blob_from_file files) in
-    let next := match max_id blobs with Some m => m + 1 | None => 0 end in
-    let '(active, rest) :=
-      if lazy then (None, blobs)
+    let good := filter (fun b => negb (is_bad bad b)) files in
+    let newq := map b_id (filter (is_bad bad) files) in
+    let blobs := sort_by_id (map blob_from_file good) in
+    let next := next_above (map b_id files ++ quar) in
+    let '(active, rest, next') :=
+      if lazy then (None, blobs, next)
       else match rev blobs with
-           | last :: r => (Some (blob_load_index last), rev r)
-           | [] => (None, [])
+           | last :: r => (Some (blob_load_index last), rev r, next)
+           | [] => (Some (new_blob next), [], next + 1)      (* every file was unreadable: a fresh active blob *)
            end in
-    {| s_active := active; s_closed := map (fun b => Some (blob_dump b)) rest; s_next := next;
-       s_corrupted := corrupted; s_alive := true; s_dump_req := false; s_aged := false; s_open := true; s_f2 := f2 |}
+    {| s_active := active; s_closed := map (fun b => Some (blob_dump b)) rest; s_next := next';
+       s_corrupted := corrupted + N.of_nat (length newq); s_alive := true; s_dump_req := false; s_aged := false;
+       s_open := true; s_f2 := f2; s_bad := []; s_quar := quar ++ newq |}
   end.
 
 (* a closed storage = the files left in the directory *)
 Definition closed_state (files : list blob) (s : storage) : storage :=
   {| s_active := None; s_closed := map Some files; s_next := s_next s; s_corrupted := s_corrupted s; s_alive := false;
-     s_dump_req := false; s_aged := false; s_open := false; s_f2 := s_f2 s |}.
+     s_dump_req := false; s_aged := false; s_open := false; s_f2 := s_f2 s; s_bad := s_bad s; s_quar := s_quar s |}.
 
 Definition rm_index (b : blob) : blob :=
   {| b_id := b_id b; b_recs := b_recs b; b_idx := b_idx b; b_ondisk := b_ondisk b; b_idxfile := None |}.
 
+(* ---- crash damage between two sessions ---- *)
+(* OCut id (Some j): the blob file is cut at the boundary behind its j-th record (C06: opening it serves exactly the
+   records in front of the cut). OCut id None: it is cut inside a record or inside the 20-byte blob header: it cannot be
+   read back; it sits in the work directory (`s_bad`) until the next start moves it to the corrupted directory.
+
+   `cut_applies`: THE DURABILITY ASSUMPTION of the crash model. A crash loses only bytes that were not synced, and
+   Blob::dump syncs the blob file BEFORE it writes the index file (C12: an index file is marked complete only when every
+   byte of its blob is synced): the bytes an index file describes are durable. So a boundary cut applies only when the
+   blob has no index file or the size the index file records is <= the size after the cut; otherwise it is the no-op.
+   A cut below that size is the loss of synced bytes -- damage of the medium, not of a crash -- and is outside this
+   model; CrashProofs.cut_below_index_breaks_reads shows what it would do (a regenerated index leaves the stale index
+   file on disk, and a later coincidence of sizes makes it trusted).
+
+   The index of a file of a closed directory is not an object of any process: the cut keeps it equal to the index of
+   the records, so that the invariants read the same in closed states; Blob::from_file recomputes it anyway. *)
+Definition cut_recs (j : nat) (b : blob) : blob :=
+  {| b_id := b_id b; b_recs := firstn j (b_recs b); b_idx := index_of (firstn j (b_recs b)); b_ondisk := b_ondisk b;
+     b_idxfile := b_idxfile b |}.
+
+Definition cut_applies (j : nat) (b : blob) : bool :=
+  match b_idxfile b with Some (sz, _) => sz <=? blob_size (cut_recs j b) | None => true end.
+
+Definition cut_blob (id : N) (j : nat) (b : blob) : blob :=
+  if (b_id b =? id) && cut_applies j b then cut_recs j b else b.
+
+Definition add_bad (id : N) (bad : list N) : list N := if existsb (N.eqb id) bad then bad else bad ++ [id].
+
+Definition upd_bad (s : storage) (bad : list N) : storage :=
+  {| s_active := s_active s; s_closed := s_closed s; s_next := s_next s; s_corrupted := s_corrupted s; s_alive := s_alive s;
+     s_dump_req := s_dump_req s; s_aged := s_aged s; s_open := s_open s; s_f2 := s_f2 s;
+     s_bad := bad; s_quar := s_quar s |}.
+
+Definition do_cut (s : storage) (id : N) (keep : option nat) : storage :=
+  if s_open s then s
+  else match keep with
+       | Some j => upd_closed s (map (fun o => match o with Some b => Some (cut_blob id j b) | None => None end) (s_closed s))
+       | None => if existsb (fun b => b_id b =? id) (closed_blobs s) then upd_bad s (add_bad id (s_bad s)) else s
+       end.
+
 Definition needs_open (o : op) : bool :=
-  match o with OOpen _ | ORmIndex _ | OSleep => false | _ => true end.
+  match o with OOpen _ | ORmIndex _ | OCut _ _ | OSleep => false | _ => true end.
 
 Definition step (s : storage) (o : op) : storage * out :=
   if needs_open o && negb (s_open s) then (s, RErr ENoStorage) else
@@ -476,12 +544,13 @@ Definition step (s : storage) (o : op) : storage * out :=
   | ODrop => (closed_state (closed_blobs s ++ match s_active s with Some b => [b] | None => [] end) s, RUnit)
   | OOpen lazy =>
     (* the script vocabulary opens a directory only while no session is running on it *)
-    if s_open s then (s, RErr EAlreadyOpen) else (do_open (closed_blobs s) (s_corrupted s) lazy (s_f2 s), RUnit)
+    if s_open s then (s, RErr EAlreadyOpen) else (do_open (closed_blobs s) (s_bad s) (s_quar s) (s_corrupted s) lazy (s_f2 s), RUnit)
   | ORmIndex id =>
     let present := existsb (fun b => (b_id b =? id) && match b_idxfile b with Some _ => true | None => false end) (closed_blobs s) in
     (upd_closed s (map (fun o => match o with
                                  | Some b => Some (if b_id b =? id then rm_index b else b)
                                  | None => None end) (s_closed s)), RNum (if present then 1 else 0))
+  | OCut id keep => (do_cut s id keep, RUnit)
   end.
 
 (* every script operation is followed by an implicit quiesce (the harness waits for the worker) *)
